@@ -726,12 +726,17 @@ class TreeRankUnrank(Family):
         for n in range(1, top + 1):
             for s in range(c.num_shapes(n)):
                 N = c.num_labellings(n, s)
+                # quick: every label rank for n <= 5, every third one (random phase, plus the
+                # first, the last and the first rejected rank) for n = 6; thorough: all
+                phase = rng.randrange(3)
                 for l in range(N + 1):       # l = N: out of range, must be rejected
+                    if tier == "quick" and n == 6 and l % 3 != phase and l not in (0, N - 1, N):
+                        continue
                     yield {"n": n, "s": s, "l": l, "N": N}
         if tier == "quick":
             n = 7
             S = c.num_shapes(n)
-            for _ in range(300):
+            for _ in range(150):
                 s = rng.randrange(S)
                 N = c.num_labellings(n, s)
                 yield {"n": n, "s": s, "l": rng.randrange(N + 1), "N": N}
@@ -787,11 +792,12 @@ class AllTrees(Family):
     workers = 7
     coq_timeout = 1500
 
+    tier = "quick"
+
     def generate(self, rng, tier):
+        self.tier = tier
         for n in range(1, (7 if tier == "quick" else 8)):
             yield {"n": n}
-        if tier != "quick":
-            yield {"n": 7}
 
     def observe(self, case):
         import tskit
@@ -853,6 +859,8 @@ class AllTrees(Family):
         if n >= 7:
             return shapes
         if n == 6:
+            if self.tier == "quick":
+                return shapes
             return ("match all_trees %s with Ok l => Z.of_nat (length l) =? %s | _ => false end && %s"
                     % (cz(n), cz(len(obs["trees"])), shapes))
         return "pts_are (all_trees %s) [%s] && %s" % (cz(n), "; ".join(cpt(t) for t in obs["trees"]), shapes)
